@@ -85,6 +85,9 @@ func NewScratchDir(tag string) string {
 type Role struct {
 	ValIdx    int  `json:"val"` // index into Universe.Vals whose keys this node holds; any index is fine for a non-validator
 	IsWitness bool `json:"witness"`
+	// Rot is the node-local chain-state rotation setting (recent, every, cycles) from the node's config file; nil = the
+	// built-in default (10, 100, 10). Which old versions a node keeps on disk must not influence consensus results.
+	Rot *[3]int64 `json:"rot,omitempty"`
 }
 
 // TxRes is the consensus-relevant part of a DeliverTx response.
@@ -147,6 +150,9 @@ func NewReplica(name string, g *Genesis, c *Chain, role Role, dir string) (*Repl
 	cfg.Node.DBDir = dir
 	cfg.Node.DB = "goleveldb"
 	cfg.Node.LogLevel = 0
+	if role.Rot != nil {
+		cfg.Node.ChainStateRotation.Recent, cfg.Node.ChainStateRotation.Every, cfg.Node.ChainStateRotation.Cycles = role.Rot[0], role.Rot[1], role.Rot[2]
+	}
 	v := g.U.Vals[role.ValIdx%len(g.U.Vals)]
 	nctx := node.NewVerifContext(name, v.Node.Priv, v.Key.Priv, v.Ecdsa)
 	a, err := app.NewApp(cfg, nctx)
